@@ -7,3 +7,51 @@ package events
 //@ ghost eventLog() int
 //@ func iface IEventsDB.AddEvent
 //@   modifies eventLog
+
+//@ # ---------------------------------------------------------------- address / public-key tables of the events store (C24)
+//@ # big-endian encodings of the table ids (ASSUMED injective encoders)
+//@ spec be32(x int) string
+//@ spec be16(x int) string
+//@ axiom be32len: forall x int :: len(be32(x)) == 4
+//@ axiom be16len: forall x int :: len(be16(x)) == 2
+//@ func uint32ToBytes
+//@   trusted
+//@   ensures result != nil && fresh(result) && len(result) == 4 && bytestr(result) == be32(height)
+//@   modifies nothing
+//@ func uint16ToBytes
+//@   trusted
+//@   ensures result != nil && fresh(result) && len(result) == 2 && bytestr(result) == be16(height)
+//@   modifies nothing
+
+//@ # the address table: ids 0..n-1, the two maps are inverse to each other
+//@ spec addrTables(s *eventsStore) bool = s != nil && s.addressID != nil && s.idAddress != nil && len(s.idAddress) == len(s.addressID) && 0 <= len(s.addressID) && len(s.addressID) < 4294967295 && (forall a types.Address :: (a in s.addressID) ==> 0 <= s.addressID[a] && s.addressID[a] < len(s.addressID) && (s.addressID[a] in s.idAddress) && s.idAddress[s.addressID[a]] == a) && (forall i uint32 :: (i in s.idAddress) ==> 0 <= i && i < len(s.addressID) && (s.idAddress[i] in s.addressID) && s.addressID[s.idAddress[i]] == i)
+
+//@ # C24: an address gets one id for ever (the next unused one when it is new), both directions of the table agree,
+//@ # nothing else in the table moves, and for a new address the persisted counter is the new table size
+//@ func (*eventsStore).saveAddress
+//@   serves C24
+//@   requires addrTables(store) && store.db != nil && store.addressID != store.idAddress
+//@   ensures idof: (address in store.addressID) && result == store.addressID[address]
+//@   ensures stable: old(address in store.addressID) ==> result == old(store.addressID[address]) && len(store.addressID) == old(len(store.addressID))
+//@   ensures fresh: !old(address in store.addressID) ==> result == old(len(store.addressID)) && len(store.addressID) == old(len(store.addressID)) + 1
+//@   ensures tables1: len(store.idAddress) == len(store.addressID) && len(store.addressID) <= 4294967295
+//@   ensures tables2: forall a types.Address :: (a in store.addressID) ==> 0 <= store.addressID[a] && store.addressID[a] < len(store.addressID) && (store.addressID[a] in store.idAddress) && store.idAddress[store.addressID[a]] == a
+//@   ensures tables3: forall i uint32 :: (i in store.idAddress) ==> 0 <= i && i < len(store.addressID) && (store.idAddress[i] in store.addressID) && store.addressID[store.idAddress[i]] == i
+//@   ensures others: forall a types.Address :: a != address ==> ((a in store.addressID) <==> old(a in store.addressID)) && store.addressID[a] == old(store.addressID[a])
+//@   ensures [C24] entry: !old(address in store.addressID) ==> disk(store.db, "address" + be32(result)) == bytestr(address)
+//@   ensures [C24] counter: !old(address in store.addressID) ==> disk(store.db, "addresses") == be32(len(store.addressID))
+
+//@ # the public-key table: ids 1..n (0 means "no key"); what is proved here is the id range, the counter and that a
+//@ # known key keeps its id. NOT proved: that the looked-up key equals *validatorPubKey (the copy into key[:] is modelled
+//@ # with copy semantics, DESIGN.md section 9)
+//@ spec pkTables(s *eventsStore) bool = s != nil && s.pubKeyID != nil && s.idPubKey != nil && s.pubKeyID != s.idPubKey && 0 <= len(s.idPubKey) && len(s.idPubKey) < 65534 && (forall k types.Pubkey :: (k in s.pubKeyID) ==> 1 <= s.pubKeyID[k] && s.pubKeyID[k] <= len(s.idPubKey) && (s.pubKeyID[k] in s.idPubKey)) && (forall i uint16 :: (i in s.idPubKey) ==> 1 <= i && i <= len(s.idPubKey))
+//@ func (*eventsStore).savePubKey
+//@   serves C24
+//@   requires pkTables(store) && store.db != nil
+//@   ensures nokey: validatorPubKey == nil ==> result == 0 && len(store.idPubKey) == old(len(store.idPubKey))
+//@   ensures id: validatorPubKey != nil ==> 1 <= result && result <= len(store.idPubKey) && (result in store.idPubKey)
+//@   ensures grows: len(store.idPubKey) == old(len(store.idPubKey)) || (len(store.idPubKey) == old(len(store.idPubKey)) + 1 && result == len(store.idPubKey))
+//@   ensures range: forall i uint16 :: (i in store.idPubKey) ==> 1 <= i && i <= len(store.idPubKey)
+//@   ensures kept: forall i uint16 :: old(i in store.idPubKey) ==> (i in store.idPubKey) && store.idPubKey[i] == old(store.idPubKey[i])
+//@   ensures [C24] counter: len(store.idPubKey) != old(len(store.idPubKey)) ==> disk(store.db, "pubKeys") == be16(len(store.idPubKey))
+//@   ensures [C24] entry: len(store.idPubKey) != old(len(store.idPubKey)) ==> disk(store.db, "pubKey" + be16(result)) == bytestr(deref(validatorPubKey))
